@@ -195,6 +195,24 @@ pub fn spec_parse_dec(s: &[u8]) -> Option<i128> {
     }
     Some(if neg { -v } else { v })
 }
+/// Decode an unsigned NR1 element of at most 5 digits (loop bound independent of the input).
+pub fn spec_parse_dec5(s: &[u8]) -> Option<u32> {
+    if s.is_empty() || s.len() > 5 {
+        return None;
+    }
+    let mut v: u32 = 0;
+    let mut i = 0;
+    while i < 5 {
+        if i < s.len() {
+            if !is_dig(s[i]) {
+                return None;
+            }
+            v = v * 10 + (s[i] - b'0') as u32;
+        }
+        i += 1;
+    }
+    Some(v)
+}
 pub fn bytes_eq(a: &[u8], b: &[u8]) -> bool {
     if a.len() != b.len() {
         return false;
